@@ -379,7 +379,7 @@ fn layout_case(out: &mut Out, toks: &[LTok], eof: LTok, origin: &str) -> LayoutE
     match &end {
         LayoutEnd::Hang => out.oracle_fail(
             "hang:layout:scan_continue_block",
-            "Layout::scan_continue_block never returns: inside `rec`, an attribute opened at or left of the `let`/`type` column and not closed before the end of input makes the `for i in 0..` loop peek EOF for ever (Tokenizer::next returns EOF for ever)",
+            "Layout::scan_continue_block did not return within 64 EOFs of look-ahead (regression of commit 3521415: inside `rec`, an attribute not closed before the end of input made the `for i in 0..` loop peek EOF for ever)",
             replay.clone(),
         ),
         LayoutEnd::Panic(p) => out.oracle_fail(
@@ -936,9 +936,9 @@ fn gen_text(rng: &mut Rng, seeds: &Seeds) -> (String, &'static str) {
     if mode < 8 {
         // random bytes, made valid UTF-8 lossily
         let n = rng.below(200) as usize;
-        // (any non-ASCII scalar outside a literal hits finding D13 at once, so most random
-        // byte strings are kept in the ASCII range, control characters included)
-        let hi = if rng.chance(1, 4) { 256 } else { 128 };
+        // half full-range bytes (lossy UTF-8: many U+FFFD and multi-byte scalars), half ASCII
+        // incl. control characters
+        let hi = if rng.chance(1, 2) { 256 } else { 128 };
         let bytes: Vec<u8> = (0..n).map(|_| rng.below(hi) as u8).collect();
         return (String::from_utf8_lossy(&bytes).into_owned(), if hi == 256 { "bytes" } else { "bytes-ascii" });
     }
@@ -950,7 +950,7 @@ fn gen_text(rng: &mut Rng, seeds: &Seeds) -> (String, &'static str) {
             let r = rng.below(40);
             if r == 0 {
                 s.push('\n');
-            } else if r == 1 && n % 4 == 0 {
+            } else if r == 1 && n % 2 == 0 {
                 s.push(*rng.pick(&['é', 'λ', '→', '😀', '\u{0}', '\u{7f}', '\r', '\t']));
             } else if r == 1 {
                 s.push(*rng.pick(&['\u{0}', '\u{7f}', '\r', '\t', '"', '\\', '\'']));
@@ -965,7 +965,7 @@ fn gen_text(rng: &mut Rng, seeds: &Seeds) -> (String, &'static str) {
         let n = 1 + rng.below(60) as usize;
         let levels: Vec<usize> = (0..4).map(|_| rng.below(10) as usize).collect();
         let mut s = " ".repeat(if rng.chance(1, 2) { 0 } else { *rng.pick(&levels) });
-        let unicode = rng.chance(1, 6);
+        let unicode = rng.chance(1, 2);
         for _ in 0..n {
             let w: &&str = rng.pick(SOUP_TEXT);
             let w: &str = if !unicode && !w.is_ascii() { "x" } else { w };
